@@ -310,6 +310,14 @@ static Fails run_container(const std::string& kind, Make make, int n, int cat, i
                         exp.push_back(100 + static_cast<int>(i));
                     if (after != exp)
                         f.push_back("enumerate-writes-not-visible-in-container: " + what + " container shows " + vs(after) + " expected " + vs(exp));
+                    // the same through a loop variable bound as `const auto&` (the visited value still aliases the element)
+                    for (const auto& p : nitro::lang::enumerate(c))
+                        put(p.value(), 300 + static_cast<int>(p.index()));
+                    after = values(c);
+                    for (auto& x : exp)
+                        x += 200;
+                    if (after != exp)
+                        f.push_back("enumerate-writes-not-visible-in-container: " + what + " (loop variable bound as const auto&) container shows " + vs(after) + " expected " + vs(exp));
                 }
             }
             else if (cat == 1)
@@ -592,6 +600,111 @@ static Fails run_initlist(int n, int adaptor, int style)
     return f;
 }
 
+// built-in arrays of character type (a string literal is one): every element is visited, the terminating zero included
+static Fails run_char_arrays()
+{
+    Fails f;
+    auto check = [&](const std::string& what, const std::vector<int>& got, std::vector<int> want, bool reversed) {
+        if (reversed)
+            std::reverse(want.begin(), want.end());
+        if (got != want)
+            f.push_back("reverse-visits-wrong-elements: " + what + " visited " + vs(got) + " expected " + vs(want));
+    };
+    {
+        const char credits[6] = { 5, 4, 3, 2, 1, 0 };
+        std::vector<int> got;
+        for (auto& e : nitro::lang::reverse(credits))
+            got.push_back(static_cast<const char&>(e));
+        check("reverse(const char[6] ending in 0)", got, { 5, 4, 3, 2, 1, 0 }, true);
+        got.clear();
+        std::vector<size_t> idx;
+        for (auto p : nitro::lang::enumerate(credits))
+        {
+            got.push_back(p.value());
+            idx.push_back(p.index());
+        }
+        if (got != std::vector<int>{ 5, 4, 3, 2, 1, 0 } || idx != std::vector<size_t>{ 0, 1, 2, 3, 4, 5 })
+            f.push_back("enumerate-visits-wrong-elements: enumerate(const char[6] ending in 0) visited " + vs(got));
+    }
+    {
+        const char zero[1] = { 0 };
+        std::vector<int> got;
+        for (auto& e : nitro::lang::reverse(zero))
+            got.push_back(static_cast<const char&>(e));
+        check("reverse(const char[1] = {0})", got, { 0 }, true);
+    }
+    {
+        std::vector<int> got;
+        for (auto& e : nitro::lang::reverse("abc"))
+            got.push_back(static_cast<const char&>(e));
+        check("reverse(\"abc\") (an array of 4 characters)", got, { 'a', 'b', 'c', 0 }, true);
+    }
+    {
+        char mid[4] = { 1, 0, 2, 0 };
+        unsigned char u[3] = { 200, 0, 0 };
+        std::vector<int> got;
+        for (auto& e : nitro::lang::reverse(mid))
+            got.push_back(static_cast<char&>(e));
+        check("reverse(char[4] with zeros)", got, { 1, 0, 2, 0 }, true);
+        got.clear();
+        for (auto& e : nitro::lang::reverse(u))
+            got.push_back(static_cast<unsigned char&>(e));
+        check("reverse(unsigned char[3] ending in zeros)", got, { 200, 0, 0 }, true);
+    }
+    return f;
+}
+
+// a range far longer than 2^32 elements (a counting range; nothing is stored): the index keeps counting
+struct Counting
+{
+    struct iterator
+    {
+        unsigned long long i;
+        unsigned long long operator*() const
+        {
+            return i;
+        }
+        iterator& operator++()
+        {
+            ++i;
+            return *this;
+        }
+        bool operator!=(const iterator& o) const
+        {
+            return i != o.i;
+        }
+    };
+    unsigned long long n;
+    iterator begin() const
+    {
+        return { 0 };
+    }
+    iterator end() const
+    {
+        return { n };
+    }
+};
+static Fails run_huge_count()
+{
+    Fails f;
+    Counting c{ (1ull << 32) + 5 };
+    unsigned long long visited = 0, first_bad = ~0ull, bad_index = 0;
+    for (auto p : nitro::lang::enumerate(c))
+    {
+        if (p.index() != p.value() && first_bad == ~0ull)
+        {
+            first_bad = p.value();
+            bad_index = p.index();
+        }
+        visited++;
+    }
+    if (visited != c.n)
+        f.push_back("enumerate-visits-wrong-elements: a range of 2^32+5 elements was visited " + std::to_string(visited) + " times");
+    if (first_bad != ~0ull)
+        f.push_back("enumerate-wrong-indices: the element at position " + std::to_string(first_bad) + " of a range of 2^32+5 elements was paired with index " + std::to_string(bad_index));
+    return f;
+}
+
 struct Case
 {
     std::string name;
@@ -648,6 +761,10 @@ static std::vector<Case> cases()
                 cs.push_back({ "builtin<3>" + sfx, [=] { return run_builtin<3>(cat, adaptor, style); } });
                 cs.push_back({ "builtin<4>" + sfx, [=] { return run_builtin<4>(cat, adaptor, style); } });
             }
+    cs.push_back({ "chararrays/0/0/0/0", [] { return run_char_arrays(); } });
+#if !defined(__SANITIZE_ADDRESS__)
+    cs.push_back({ "counting(2^32+5)/0/0/0/0", [] { return run_huge_count(); } });
+#endif
     for (int n = 0; n <= 4; n++)
         for (int adaptor = 0; adaptor < 3; adaptor++)
             for (int style = 0; style < (adaptor != 1 ? 4 : 2); style++)
